@@ -736,6 +736,13 @@ def build_shards(tier, seed):
             for stack in STACKS:
                 for method in ('HEAD', 'OPTIONS'):
                     cases.append((stack, method, t, 0, None, None))
+        # conditional requests for every path spelling (directories, missing names, hostile forms): a validator can only
+        # turn the answer for a file that WOULD be served into a 304, never a 404 into something else
+        future = 'Fri, 31 Dec 9999 23:59:59 GMT'
+        for t in toks:
+            if len(t) <= 2:
+                for stack in ('wsgi', 'asgi'):
+                    cases.append((stack, 'GET', t, 0, None, future))
         for i in range(0, len(cases), 1500):
             shards.append(('path', rd, cases[i:i + 1500]))
     # prefix forms
